@@ -16,6 +16,7 @@ S8  cross-reference: array outputs are decoded with the element count of the typ
 S11 cross-reference: resolved const definitions are visible to later ones (C12-K6)
 S13 the one-node re-typers check_or_constrain_* are only the leaf case of constrain_type (operands of an untyped compound expression are re-typed too)
 S14 inside a collection an unspecified number type is only re-typed in place to a number type of the same (32-bit) width
+S15 zero-sized types and empty arrays: no division by a type width, no trapping `element count - constant` in the lowering
 S12 the number type stored in a Range node (which the lowering sizes the elements with) follows the re-typing of the range
 """
 from .. import mir
@@ -611,5 +612,99 @@ def rule_s14(ctx):
     return res
 
 
+def rule_s15(ctx):
+    """Zero-sized types (`()`, empty structs and arrays, ..) and empty arrays are legal: the lowering must not divide by the width
+    of a type, and must not subtract a constant from a number of array elements with the trapping operator."""
+    res = RuleResult("S15", "the lowering neither divides by a type width nor subtracts a constant from an element count with trapping arithmetic")
+    n = 0
+    for f in ctx.fns.values():
+        if not f.get("mir") or f["sp"][0] != "src/compile.rs":
+            continue
+        body = ctx.body(f["id"])
+
+        def kind_of(op, depth=4):
+            """'width' / 'count' if the operand is (a sum of) widths or element counts of types, else None."""
+            if op["k"] not in ("copy", "move"):
+                return None
+            kinds = set()
+            for (r, p) in body.trace(op["place"]):
+                if r[0] == "call" and mir.last_seg(str(r[2])) == "size_in_bits_for_defs" and not p:
+                    kinds.add("width")
+                elif r[0] == "call" and mir.last_seg(str(r[2])) in ("expect", "unwrap") and tuple(p) in (("0",), ("1",)):
+                    c = body.term(r[1])
+                    if any(rr[0] == "call" and mir.last_seg(str(rr[2])) == "unwrap_array_size" for (rr, pp) in body.trace_operand(c["args"][0])):
+                        kinds.add("width" if p[0] == "0" else "count")
+                    else:
+                        return None
+                elif r[0] == "call" and p and p[0] == "[]" and depth > 0 and mir.last_seg(str(r[2])) in ("new", "with_capacity"):
+                    # an element of a list that the function fills itself: look at what is pushed
+                    ks = set()
+                    for pb, pt in body.calls():
+                        if mir.last_seg(mir.callee(pt) or "") != "push" or len(pt["args"]) < 2 or pt["args"][1]["k"] not in ("copy", "move"):
+                            continue
+                        if not any(rr == r for (rr, pp) in body.trace_operand(pt["args"][0])):
+                            continue
+                        for (ar, ap) in body.trace_operand(pt["args"][1]):
+                            if ar[0] != "agg":
+                                continue
+                            rv = body.blocks[ar[1]]["stmts"][ar[2]]["rv"]
+                            rest = list(p[1:])
+                            if rest and rest[0].startswith("as "):
+                                if rv.get("variant") != rest[0][3:]:
+                                    continue
+                                rest = rest[1:]
+                            if len(rest) >= 1 and rest[0].isdigit() and int(rest[0]) < len(rv["ops"]):
+                                o = rv["ops"][int(rest[0])]
+                                if len(rest) == 1:
+                                    ks.add(kind_of(o, depth - 1))
+                                elif o["k"] in ("copy", "move"):
+                                    # one more level: a tuple built on the spot
+                                    for (br, bp) in body.trace_operand(o):
+                                        if br[0] == "agg" and rest[1].isdigit():
+                                            inner = body.blocks[br[1]]["stmts"][br[2]]["rv"]["ops"]
+                                            if int(rest[1]) < len(inner):
+                                                ks.add(kind_of(inner[int(rest[1])], depth - 1))
+                    if len(ks) == 1 and None not in ks:
+                        kinds |= ks
+                    else:
+                        return None
+                elif r[0] == "rv" and r[1] in ("binop", "checked_binop") and depth > 0:
+                    rv = body.blocks[r[2]]["stmts"][r[3]]["rv"]
+                    if rv.get("op", "").startswith("Add"):
+                        ks = {kind_of(rv["l"], depth - 1), kind_of(rv["r"], depth - 1)}
+                        if None in ks or len(ks) != 1:
+                            return None
+                        kinds |= ks
+                    else:
+                        return None
+                else:
+                    return None
+            return next(iter(kinds)) if len(kinds) == 1 else None
+        for (b, kind, ops, sp) in mir.trapping_arith_sites(body):
+            if kind in ("DivisionByZero", "RemainderByZero") and len(ops) >= 1:
+                n += 1
+                # the assert carries the dividend; the divisor is the right operand of the division it protects
+                divisors = []
+                tgt = body.term(b).get("target")
+                if tgt is not None:
+                    divisors = [st["rv"]["r"] for st in body.blocks[tgt]["stmts"] if st["k"] == "assign" and st["rv"]["k"] == "binop" and st["rv"]["op"] in ("Div", "Rem")]
+                if any(kind_of(d) == "width" for d in divisors):
+                    res.bad(Finding("S15", f["id"], "division by the width of a type",
+                                    "the divisor is the number of bits of a type, which is 0 for zero-sized types: `let mut a = [Z {}; 3]; a[0] = Z {};` panics in the compiler", sp))
+                else:
+                    res.ok({"site": "%s at line %d" % (kind, sp[1]), "verdict": "divisor is not a type width"})
+            elif kind.startswith("Overflow(Sub") and len(ops) == 2 and ops[1]["k"] == "const" and isinstance(ops[1].get("val"), int) and ops[1]["val"] >= 1:
+                if kind_of(ops[0]) == "count":
+                    n += 1
+                    res.bad(Finding("S15", f["id"], "constant subtracted from a number of array elements",
+                                    "`n - %d` where n is (a sum of) array lengths traps for empty arrays: a join of two empty arrays panics in the compiler" % ops[1]["val"], sp))
+    if n < 1 and not res.findings:
+        # no division left at all is fine, but then the sites that were confirmed by hand must still be visible as arithmetic
+        pass
+    if not res.findings:
+        res.ok({"verdict": "no division by a type width, no trapping `count - c`", "sites_seen": n})
+    return res
+
+
 def run(ctx):
-    return ctx.run_rules([rule_s1, rule_s2, rule_s3, rule_s4, rule_s5, rule_s6, rule_s7, rule_s8, rule_s9, rule_s10, rule_s11, rule_s12, rule_s13, rule_s14])
+    return ctx.run_rules([rule_s1, rule_s2, rule_s3, rule_s4, rule_s5, rule_s6, rule_s7, rule_s8, rule_s9, rule_s10, rule_s11, rule_s12, rule_s13, rule_s14, rule_s15])
